@@ -108,12 +108,28 @@ func vfWorkDir(tag string) string {
 
 // ---------------------------------------------------------------- cluster
 
+// vfNode: Srv and Up are written by StartNode/StopNode and may be read by
+// monitor goroutines, so they are only accessed through the methods below.
 type vfNode struct {
 	ID  string
 	Cfg *Config
+	mu  sync.RWMutex
 	Srv *Server
 	Up  bool
 }
+
+// Server returns the running server or nil.
+func (n *vfNode) Server() *Server {
+	n.mu.RLock()
+	defer n.mu.RUnlock()
+	if !n.Up {
+		return nil
+	}
+	return n.Srv
+}
+
+// IsUp reports whether the node is running.
+func (n *vfNode) IsUp() bool { return n.Server() != nil }
 
 type vfCluster struct {
 	NS    *gnatsd.Server
@@ -201,31 +217,36 @@ func vfNewCluster(tag string, n int, mut func(*Config)) (*vfCluster, error) {
 
 func (c *vfCluster) StartNode(id string) error {
 	n := c.Nodes[id]
-	if n.Up {
+	if n.IsUp() {
 		return nil
 	}
 	srv, err := RunServerWithConfig(n.Cfg)
 	if err != nil {
 		return err
 	}
+	n.mu.Lock()
 	n.Srv, n.Up = srv, true
+	n.mu.Unlock()
 	return nil
 }
 
 func (c *vfCluster) StopNode(id string) error {
 	n := c.Nodes[id]
+	n.mu.Lock()
 	if !n.Up {
+		n.mu.Unlock()
 		return nil
 	}
 	n.Up = false
-	return n.Srv.Stop()
+	srv := n.Srv
+	n.mu.Unlock()
+	return srv.Stop()
 }
 
 func (c *vfCluster) Stop() {
 	for _, id := range c.IDs {
-		if n := c.Nodes[id]; n != nil && n.Up {
-			n.Srv.Stop()
-			n.Up = false
+		if n := c.Nodes[id]; n != nil {
+			c.StopNode(id)
 		}
 	}
 	if c.NC != nil {
@@ -245,7 +266,7 @@ func (c *vfCluster) Cleanup() {
 func (c *vfCluster) Running() []*vfNode {
 	var out []*vfNode
 	for _, id := range c.IDs {
-		if n := c.Nodes[id]; n.Up {
+		if n := c.Nodes[id]; n.IsUp() {
 			out = append(out, n)
 		}
 	}
@@ -255,14 +276,15 @@ func (c *vfCluster) Running() []*vfNode {
 func (c *vfCluster) metaLeaderNow() *Server {
 	var leader *Server
 	for _, n := range c.Running() {
-		if n.Srv.getRaft() == nil {
+		srv := n.Server()
+		if srv == nil || srv.getRaft() == nil {
 			continue
 		}
-		if n.Srv.IsLeader() {
+		if srv.IsLeader() {
 			if leader != nil {
 				return nil
 			}
-			leader = n.Srv
+			leader = srv
 		}
 	}
 	return leader
@@ -279,10 +301,11 @@ func (c *vfCluster) MetaLeader(timeout time.Duration) (*Server, error) {
 
 // Partition returns the partition object on a node (nil if unknown there).
 func (n *vfNode) Partition(stream string, id int32) *partition {
-	if !n.Up {
+	srv := n.Server()
+	if srv == nil {
 		return nil
 	}
-	return n.Srv.metadata.GetPartition(stream, id)
+	return srv.metadata.GetPartition(stream, id)
 }
 
 // PartitionLeader waits until every running server names the same leader for
@@ -304,7 +327,7 @@ func (c *vfCluster) PartitionLeader(stream string, id int32, timeout time.Durati
 			name = l
 		}
 		ln := c.Nodes[name]
-		if ln == nil || !ln.Up {
+		if ln == nil || !ln.IsUp() {
 			return false
 		}
 		p := ln.Partition(stream, id)
@@ -358,7 +381,7 @@ func vfSingle(tag string, mut func(*Config)) (*vfCluster, *Server, error) {
 	if err != nil {
 		return nil, nil, err
 	}
-	return c, c.Nodes["a"].Srv, nil
+	return c, c.Nodes["a"].Server(), nil
 }
 
 // ---------------------------------------------------------------- log reading
